@@ -32,9 +32,11 @@ Lemma method_ok_sound : forall r, method_ok r = true -> r_quiescent r = false ->
   (is_self r = true -> (r_sections r <= 1) \/ (r_condwait r = true /\ r_mode r = LExcl)) /\
   (kind_of_row r = KShared -> r_writes r = 0) /\
   (kind_of_row r = KNone -> accesses r = 0) /\
-  (kind_of_row r = KExcl -> r_mode r = LExcl).
+  (kind_of_row r = KExcl -> r_mode r = LExcl) /\
+  (r_condwait r = true -> kind_of_row r = KExcl).
 Proof.
   intros r Hok Hq. unfold method_ok in Hok. rewrite Hq in Hok; simpl in Hok.
+  apply andb_true_iff in Hok; destruct Hok as [Hok H8].
   apply andb_true_iff in Hok; destruct Hok as [Hok H7].
   apply andb_true_iff in Hok; destruct Hok as [Hok H6].
   apply andb_true_iff in Hok; destruct Hok as [Hok H5].
@@ -49,15 +51,18 @@ Proof.
     - right. apply andb_true_iff in H5. destruct H5 as [Hc Hm]. apply lmode_eqb_eq in Hm. auto. }
   unfold kind_of_row, classify. rewrite Hq.
   destruct (accesses r =? 0) eqn:Ea.
-  - apply N.eqb_eq in Ea. split; [intros; discriminate|]. split; [auto|intros; discriminate].
+  - apply N.eqb_eq in Ea. split; [intros; discriminate|]. split; [auto|]. split; [intros; discriminate|].
+    intro Hc. rewrite Hc in H8. apply andb_true_iff in H8. destruct H8 as [_ H8].
+    apply N.ltb_lt in H8. lia.
   - apply N.eqb_neq in Ea.
     assert (Hpos : (0 <? accesses r) = true) by (apply N.ltb_lt; lia).
     rewrite Hpos in H7. apply negb_true_iff in H7.
     destruct (r_mode r) eqn:Em; simpl in H7; try discriminate.
-    + (* shared *) split; [|split; intros; discriminate]. intros _.
-      destruct (0 <? r_writes r) eqn:Ew.
-      * simpl in H6. discriminate.
-      * apply N.ltb_ge in Ew. lia.
+    + (* shared *) split; [|split; [intros; discriminate|split; [intros; discriminate|]]].
+      * intros _. destruct (0 <? r_writes r) eqn:Ew.
+        -- simpl in H6. discriminate.
+        -- apply N.ltb_ge in Ew. lia.
+      * intro Hc. rewrite Hc in H8. simpl in H8. discriminate.
     + (* exclusive *) split; [intros; discriminate|]. split; [intros; discriminate|auto].
 Qed.
 
@@ -66,6 +71,8 @@ Section Instantiate.
   Variable linit : op -> local.
   Variable mstep : op -> local -> state -> local * state.
   Variable fin : op -> local -> option ret.
+  Variable waits : op -> local -> bool.
+  Variable wstep : op -> local -> local.
   Variable s0 : state.
   Variable tbl : list lock_row.
   Variable row_of : op -> lock_row.           (* which method an operation invokes *)
@@ -77,6 +84,10 @@ Section Instantiate.
   Hypothesis sound_no_writes : forall o, r_writes (row_of o) = 0 -> forall l s, snd (mstep o l s) = s.
   Hypothesis sound_no_access : forall o, accesses (row_of o) = 0 ->
     forall l s s', mstep o l s = (fst (mstep o l s'), s).
+  Hypothesis sound_waits : forall o l, waits o l = true -> r_condwait (row_of o) = true.
+  (* the wait loops of the bodies (only DataSemaphore.Acquire has one) re-validate after waking up *)
+  Variable resumable : op -> local -> Prop.
+  Hypothesis Hres : resumable_inv state op ret local linit mstep fin waits wstep resumable.
 
   Definition kind_of_op (o : op) : lkind := kind_of_row (row_of o).
 
@@ -95,17 +106,27 @@ Section Instantiate.
     destruct (method_ok_sound _ (row_ok o) (live o)) as (_ & _ & _ & _ & _ & _ & Hn & _). auto.
   Qed.
 
-  Theorem table_linearizable : forall tr c,
-    exec state op ret local linit mstep fin kind_of_op s0 tr c ->
-    linearizable state op ret local linit mstep fin s0 (hist op ret tr).
+  Lemma table_wait_excl : wait_excl op local waits kind_of_op.
   Proof.
-    apply locked_atomic_linearizable; [exact table_shared_readonly | exact table_none_stateless].
+    intros o l Hw.
+    destruct (method_ok_sound _ (row_ok o) (live o)) as (_ & _ & _ & _ & _ & _ & _ & _ & Hc).
+    apply Hc. eapply sound_waits; eauto.
+  Qed.
+
+  Theorem table_linearizable : forall tr c,
+    exec state op ret local linit mstep fin waits wstep kind_of_op s0 tr c ->
+    linearizable state op ret local linit mstep fin waits wstep s0 (hist op ret tr).
+  Proof.
+    exact (locked_atomic_linearizable_w _ _ _ _ _ _ _ _ _ _ _ table_shared_readonly table_none_stateless
+             table_wait_excl _ Hres).
   Qed.
 
   Theorem table_race_free : forall tr c,
-    exec state op ret local linit mstep fin kind_of_op s0 tr c -> ~ race state op ret local fin kind_of_op c.
+    exec state op ret local linit mstep fin waits wstep kind_of_op s0 tr c ->
+    ~ race state op ret local fin waits kind_of_op c.
   Proof.
-    apply locked_race_free; [exact table_shared_readonly | exact table_none_stateless].
+    exact (locked_race_free_w _ _ _ _ _ _ _ _ _ _ _ table_shared_readonly table_none_stateless
+             table_wait_excl _ Hres).
   Qed.
 End Instantiate.
 
